@@ -1,5 +1,7 @@
 import ClipVerif.Proofs.C12
 import ClipVerif.Facts.Tables
+import ClipVerif.Model.Scan
+import ClipVerif.Proofs.Scan
 /-
 C12 — an engine's answer depends only on the paths added.  Proved over the regenerated field table
 `Facts.fields`: the engine has exactly the fields classified below (a new field breaks this theorem
@@ -54,5 +56,41 @@ theorem input_fields_written_only_by_add :
 
 theorem no_package_state_written : ∀ g ∈ globals, g.writes = [] := by
   decide
+
+
+/-- the caller's paths are never modified: no function stores into an element of a slice parameter
+    (or an alias of one) except the three internal list helpers -/
+theorem inputs_never_written_in_place :
+    paramWrites = ["RectClip64.tidyEdgePair: store through ccw",
+      "RectClip64.tidyEdgePair: store through cw", "insertAtIndex: store through slice"] := by
+  decide
+
+/-! ### The scanline list (model `Model.Scan` of `insertScanline` / `popScanline` / `binarySearch`, tied by
+`models-corr scan`): an ascending list, the largest value is visited first and never twice -/
+
+def Ascending (l : List Int64) : Prop := l.Pairwise (· ≤ ·)
+
+theorem insertScanline_ascending (l : List Int64) (y : Int64) (h : Ascending l) :
+    Ascending (Model.insertScanline l y) := by
+  exact Proofs.Scan.insertScanline_ascending l y h
+
+theorem insertScanline_mem (l : List Int64) (y z : Int64) (h : Ascending l) :
+    z ∈ Model.insertScanline l y ↔ (z = y ∨ z ∈ l) := by
+  exact Proofs.Scan.insertScanline_mem l y z h
+
+/-- a value already present is not inserted again -/
+theorem insertScanline_present (l : List Int64) (y : Int64) (h : Ascending l) (hy : y ∈ l) :
+    Model.insertScanline l y = l := by
+  exact Proofs.Scan.insertScanline_present l y h hy
+
+theorem popScanline_nil : Model.popScanline [] = none := by
+  exact Proofs.Scan.popScanline_nil
+
+/-- popping returns the largest value and removes every copy of it; the rest stays ascending -/
+theorem popScanline_spec (l : List Int64) (h : Ascending l) (hne : l ≠ []) :
+    ∃ y rest, Model.popScanline l = some (y, rest) ∧ y ∈ l ∧ (∀ z ∈ l, z ≤ y) ∧
+      Ascending rest ∧ (∀ z, z ∈ rest ↔ (z ∈ l ∧ z ≠ y)) := by
+  exact Proofs.Scan.popScanline_spec l h hne
+
 
 end C12
